@@ -336,11 +336,19 @@ def havoc_call(c, s):
     c.fresh += 1
     n = c.fresh
     out = []
+
+    def fresh_name(v):
+        if not c.trace:
+            return 'hv%d_%s' % (n, ident(v))
+        # trace mode: named after the callee, so that the name does not change when statements are added before this one
+        base = '%s_gives_%s' % (ident(call[1][1]), ident(v))
+        c.sets_names[base] = c.sets_names.get(base, 0) + 1
+        return base if c.sets_names[base] == 1 else '%s_%d' % (base, c.sets_names[base])
     for a in call[2]:
         if a[0] == 'refarg':
             v = a[1]
             ty = c.types.get(v, 'N')
-            p = 'hv%d_%s' % (n, ident(v))
+            p = fresh_name(v)
             c.extern(p, ty)
             out.append((ident(v), p))
     if target is not None:
@@ -348,7 +356,7 @@ def havoc_call(c, s):
         if s[0] == 'decl':
             ty = 'bool' if s[2] in BOOL_TYPES else 'N'
             c.types[target] = ty
-        p = 'hv%d_%s' % (n, ident(target))
+        p = fresh_name(target)
         c.extern(p, ty)
         out.append((ident(target), p))
     return out
@@ -1008,6 +1016,8 @@ def tr_s_inner(c, ss, k_fall, k_break):
             if ty != c.types[e[2][1]]:
                 v = as_bool(c, e[3]) if c.types[e[2][1]] == 'bool' else as_N(c, e[3])
             return '(let %s := %s in %s)' % (ident(e[2][1]), v, tr_s(c, rest, k_fall, k_break))
+        if c.trace and not mentions([e], lambda x: x[0] in ('call', 'refarg') or (x[0] == 'bin' and isinstance(x[1], str) and x[1].endswith('=') and x[1] not in ('==', '!=', '<=', '>=', 'op==', 'op!=')) or (x[0] == 'un' and x[1] in ('++', '--', 'post++', 'post--'))):
+            return tr_s(c, rest, k_fall, k_break)       # an expression without calls or assignments: (void)x;
         raise Unsupported('expression statement ' + repr(e)[:80])
     if k == 'decl':
         c.assigned_locals.add(s[1])
